@@ -9,7 +9,7 @@
    2. Header sniffing is a heuristic: the unrestricted form of family (a) of
       Properties_C09 is false already for the one-column file "Abc\n1e5\n1E5\n". *)
 From Coq Require Import ZArith List Bool.
-From VV Require Import Csv.CsvDefs Csv.TextProofs Csv.SniffProofs.
+From VV Require Import Csv.CsvDefs Csv.TextProofs Csv.SniffProofs Csv.HeaderProofs.
 Import ListNotations.
 Local Open Scope Z_scope.
 
@@ -40,3 +40,53 @@ Theorem C09_has_header_named_numeric_refuted :
        sniff_has_header is_number text lines delim = Ok HAS_HEADER).
 Proof. exact has_header_family_named_numeric_original_false. Qed.
 Print Assumptions C09_has_header_named_numeric_refuted.
+
+(* 3. Where header sniffing MUST fail -- universally quantified families (HeaderProofs),
+      the exact complement of the agreement theorems of Properties_C09:
+      (i)   a real header over columns that are all variable-width text: no column votes,
+            the answer is NO_HEADER;
+      (ii)  a real header whose names happen to have the width of their fixed-width text
+            columns: every column votes against, NO_HEADER;
+      (iii) NO header, but the first row is capitalized text over lower-case cells: every
+            column votes for, HAS_HEADER (the first data row is lost);
+      (iv)  the same as soon as the capitalized columns outnumber the columns that could
+            vote against. *)
+Theorem C09_has_header_variable_text_refuted :
+  forall is_number text lines delim header rows,
+  sniff_input delim text header rows ->
+  columns_all (cls_variable_text is_number) header (looked (length header) lines rows) ->
+  sniff_has_header is_number text lines delim = Ok NO_HEADER.
+Proof. exact has_header_must_fail_variable_text. Qed.
+Print Assumptions C09_has_header_variable_text_refuted.
+
+Theorem C09_has_header_same_width_names_refuted :
+  forall is_number text lines delim header rows,
+  sniff_input delim text header rows ->
+  columns_all (fun h cells => cls_fixed_text is_number (length h) h cells) header (looked (length header) lines rows) ->
+  sniff_has_header is_number text lines delim = Ok NO_HEADER.
+Proof. exact has_header_must_fail_same_width_names. Qed.
+Print Assumptions C09_has_header_same_width_names_refuted.
+
+Theorem C09_has_header_capitalized_first_row_refuted :
+  forall is_number text lines delim header rows,
+  sniff_input delim text header rows -> header <> [] ->
+  columns_all cls_cap_lower header (looked (length header) lines rows) ->
+  sniff_has_header is_number text lines delim = Ok HAS_HEADER.
+Proof. exact has_header_must_fail_capitalized_first_row. Qed.
+Print Assumptions C09_has_header_capitalized_first_row_refuted.
+
+Theorem C09_has_header_capitalized_outvote_refuted :
+  forall is_number text lines delim header rows (cap any : nat -> bool),
+  sniff_input delim text header rows ->
+  (forall j, (j < length header)%nat -> cap j = true ->
+     cls_cap_lower (nth j header []) (data_cells j (looked (length header) lines rows))) ->
+  (forall j, (j < length header)%nat -> cap j = false -> any j = false ->
+     cls_variable_text is_number (nth j header []) (data_cells j (looked (length header) lines rows))) ->
+  (length (filter any (seq 0 (length header))) < length (filter cap (seq 0 (length header))))%nat ->
+  sniff_has_header is_number text lines delim = Ok HAS_HEADER.
+Proof. exact has_header_must_fail_capitalized_outvote. Qed.
+Print Assumptions C09_has_header_capitalized_outvote_refuted.
+
+(* concrete members of (i) and (iii): "name,city\nalice,rome\nbob,paris\n" is sniffed
+   NO_HEADER, "Rome,Lazio\nmilan,lombardy\nturin,piedmont\n" HAS_HEADER *)
+Example C09_has_header_refuted_witnesses := (ex_text_header_missed, ex_cap_first_row_invented).
